@@ -337,6 +337,8 @@ mutual
 def coreE : Expr → Bool
   | .intLit _ | .floatLit _ | .boolLit | .strLit | .unitLit | .var _ | .const _ | .none => true
   | .neg e | .not e | .some e | .try e | .field e _ | .assign _ _ _ e => coreE e
+  | .cassign op _ _ _ e => op != .div && coreE e
+  | .mcall e _ args => coreE e && coreL args
   | .listLit es => coreL es
   | .ctor _ _ args => coreL args
   | .record _ fs => coreF fs
@@ -649,6 +651,17 @@ open RotoV.Typing RotoV.Unify RotoV.Gen
 def OperandOk (env : Env) (cx : Cx) (g : MGamma) (e : Expr) (chk : MTy → M Bool) : Prop :=
   ∀ τ st d st', WTs st.store → WT τ = true → chk τ st = .ok d st' → PostE env (cx.withTy τ) g e st d st'
 
+/-- the same for a check that is only known to be right in states that extend a
+    given store (the left operand of a compound assignment: the assigned path, whose
+    type was computed in the state `binop` starts from) -/
+def OperandOkFrom (base : Store) (env : Env) (cx : Cx) (g : MGamma) (e : Expr) (chk : MTy → M Bool) : Prop :=
+  ∀ τ st d st', WTs st.store → (∀ σ : Val, Sat σ st.store → Sat σ base) → WT τ = true →
+    chk τ st = .ok d st' → PostE env (cx.withTy τ) g e st d st'
+
+theorem OperandOk.from {env : Env} {cx : Cx} {g : MGamma} {e : Expr} {chk : MTy → M Bool}
+    (h : OperandOk env cx g e chk) (base : Store) : OperandOkFrom base env cx g e chk :=
+  fun τ st d st' hW _ hτ hc => h τ st d st' hW hτ hc
+
 /-- the arithmetic arm of `binop` after the left operand has been checked against `v` -/
 theorem arith_tail {env : Env} {cx : Cx} {g : MGamma} {l r : Expr} {op : BinOp} {right : MTy → M Bool}
     (hop : op = .add ∨ op = .sub ∨ op = .mul)
@@ -737,8 +750,8 @@ namespace RotoV.TcInfer
 open RotoV.Typing RotoV.Unify RotoV.Gen
 
 theorem eq_case {env : Env} {cx : Cx} {g : MGamma} {l r : Expr} {op : BinOp} {left right : MTy → M Bool}
-    (hop : op = .eq ∨ op = .ne) (hl : OperandOk env cx g l left) (hr : OperandOk env cx g r right)
-    {st : St} {d : Bool} {st' : St} (hW : WTs st.store) (hcx : WTcx cx)
+    (hop : op = .eq ∨ op = .ne) {st : St} (hl : OperandOkFrom st.store env cx g l left) (hr : OperandOk env cx g r right)
+    {d : Bool} {st' : St} (hW : WTs st.store) (hcx : WTcx cx)
     (h : (do
         unifyM env cx.expected tBool
         let ty ← freshVar
@@ -753,7 +766,7 @@ theorem eq_case {env : Env} {cx : Cx} {g : MGamma} {l r : Expr} {op : BinOp} {le
   obtain ⟨rfl, rfl⟩ := pure_ok.mp a6
   obtain ⟨hW0, hE0, heq0⟩ := unifyM_ok a0 hW hcx.1 WT_tBool
   obtain ⟨rfl, hE1⟩ := freshVar_ok a1
-  have hpl := hl _ s1 dl s2 (hE1.1 hW0) (WT_var _) a3
+  have hpl := hl _ s1 dl s2 (hE1.1 hW0) (fun σ hs => hE0.2 σ (hE1.2 σ hs)) (WT_var _) a3
   obtain ⟨hW3, hp3⟩ := hr _ s2 dr s3 hpl.1 (WT_var _) a5
   refine ⟨hW3, fun σ hσ hs => ?_⟩
   obtain ⟨hs2, hsynr⟩ := hp3 σ hσ hs
@@ -774,8 +787,8 @@ theorem eq_case {env : Env} {cx : Cx} {g : MGamma} {l r : Expr} {op : BinOp} {le
   · exact Or.inr (e3 hd)
 
 theorem cmp_case {env : Env} {cx : Cx} {g : MGamma} {l r : Expr} {op : BinOp} {left right : MTy → M Bool}
-    (hop : op = .lt ∨ op = .le ∨ op = .gt ∨ op = .ge) (hl : OperandOk env cx g l left) (hr : OperandOk env cx g r right)
-    {st : St} {d : Bool} {st' : St} (hW : WTs st.store) (hcx : WTcx cx)
+    (hop : op = .lt ∨ op = .le ∨ op = .gt ∨ op = .ge) {st : St} (hl : OperandOkFrom st.store env cx g l left) (hr : OperandOk env cx g r right)
+    {d : Bool} {st' : St} (hW : WTs st.store) (hcx : WTcx cx)
     (h : (do
         unifyM env cx.expected tBool
         let ty ← freshVar
@@ -793,7 +806,7 @@ theorem cmp_case {env : Env} {cx : Cx} {g : MGamma} {l r : Expr} {op : BinOp} {l
   obtain ⟨rfl, hres⟩ := resolveM_ok a5
   obtain ⟨hW0, hE0, heq0⟩ := unifyM_ok a0 hW hcx.1 WT_tBool
   obtain ⟨rfl, hE1⟩ := freshVar_ok a1
-  have hpl := hl _ s1 dl s2 (hE1.1 hW0) (WT_var _) a3
+  have hpl := hl _ s1 dl s2 (hE1.1 hW0) (fun σ hs => hE0.2 σ (hE1.2 σ hs)) (WT_var _) a3
   by_cases hn : isNumericR env r0 = true
   · simp only [hn, if_true] at a6
     obtain ⟨dr, s4, b1, b2⟩ := bind_ok.mp a6
@@ -821,8 +834,8 @@ theorem cmp_case {env : Env} {cx : Cx} {g : MGamma} {l r : Expr} {op : BinOp} {l
   · simp only [hn, Bool.false_eq_true, if_false] at a6; exact (throw_ok.mp a6).elim
 
 theorem logic_case {env : Env} {cx : Cx} {g : MGamma} {l r : Expr} {op : BinOp} {left right : MTy → M Bool}
-    (hop : op = .and ∨ op = .or) (hl : OperandOk env cx g l left) (hr : OperandOk env cx g r right)
-    {st : St} {d : Bool} {st' : St} (hW : WTs st.store) (hcx : WTcx cx)
+    (hop : op = .and ∨ op = .or) {st : St} (hl : OperandOkFrom st.store env cx g l left) (hr : OperandOk env cx g r right)
+    {d : Bool} {st' : St} (hW : WTs st.store) (hcx : WTcx cx)
     (h : (do
         unifyM env cx.expected tBool
         let dl ← left tBool
@@ -834,7 +847,7 @@ theorem logic_case {env : Env} {cx : Cx} {g : MGamma} {l r : Expr} {op : BinOp} 
   obtain ⟨dr, s3, a5, a6⟩ := bind_ok.mp a4
   obtain ⟨rfl, rfl⟩ := pure_ok.mp a6
   obtain ⟨hW0, hE0, heq0⟩ := unifyM_ok a0 hW hcx.1 WT_tBool
-  have hpl := hl _ s0 dl s2 hW0 WT_tBool a3
+  have hpl := hl _ s0 dl s2 hW0 hE0.2 WT_tBool a3
   obtain ⟨hW3, hp3⟩ := hr _ s2 dr s3 hpl.1 WT_tBool a5
   refine ⟨hW3, fun σ hσ hs => ?_⟩
   obtain ⟨hs2, hsynr⟩ := hp3 σ hσ hs
@@ -851,8 +864,8 @@ theorem logic_case {env : Env} {cx : Cx} {g : MGamma} {l r : Expr} {op : BinOp} 
   rw [this]; exact c3 hd
 
 theorem binopWith_sound {env : Env} {cx : Cx} {g : MGamma} {l r : Expr} {op : BinOp} {left right : MTy → M Bool}
-    (hop : op ≠ .div) (hl : OperandOk env cx g l left) (hr : OperandOk env cx g r right)
-    {st : St} {d : Bool} {st' : St} (hW : WTs st.store) (hcx : WTcx cx)
+    (hop : op ≠ .div) {st : St} (hl : OperandOkFrom st.store env cx g l left) (hr : OperandOk env cx g r right)
+    {d : Bool} {st' : St} (hW : WTs st.store) (hcx : WTcx cx)
     (h : binopWith env cx.expected op left right st = .ok d st') :
     PostE env cx g (.bin op l r) st d st' := by
   unfold binopWith at h
@@ -868,7 +881,7 @@ theorem binopWith_sound {env : Env} {cx : Cx} {g : MGamma} {l r : Expr} {op : Bi
     obtain ⟨dl, s2, a3, a4⟩ := bind_ok.mp a2
     obtain ⟨rfl, rfl⟩ := pure_ok.mp a4
     obtain ⟨rfl, hE1⟩ := freshVar_ok a1
-    have hpl := hl _ s1 dl s2 (hE1.1 hW) (WT_var _) a3
+    have hpl := hl _ s1 dl s2 (hE1.1 hW) hE1.2 (WT_var _) a3
     have hpl' : PostE env (cx.withTy (.var st.store.length)) g l st dl s2 :=
       ⟨hpl.1, fun σ hσ hs => ⟨hE1.2 σ (hpl.2 σ hσ hs).1, (hpl.2 σ hσ hs).2⟩⟩
     exact arith_tail (Or.inr (Or.inl rfl)) hr hcx (WT_var _) hpl.1 hpl' h3
@@ -882,7 +895,7 @@ theorem binopWith_sound {env : Env} {cx : Cx} {g : MGamma} {l r : Expr} {op : Bi
     obtain ⟨dl, s2, a3, a4⟩ := bind_ok.mp a2
     obtain ⟨rfl, rfl⟩ := pure_ok.mp a4
     obtain ⟨rfl, hE1⟩ := freshVar_ok a1
-    have hpl := hl _ s1 dl s2 (hE1.1 hW) (WT_var _) a3
+    have hpl := hl _ s1 dl s2 (hE1.1 hW) hE1.2 (WT_var _) a3
     have hpl' : PostE env (cx.withTy (.var st.store.length)) g l st dl s2 :=
       ⟨hpl.1, fun σ hσ hs => ⟨hE1.2 σ (hpl.2 σ hσ hs).1, (hpl.2 σ hσ hs).2⟩⟩
     exact arith_tail (Or.inr (Or.inr rfl)) hr hcx (WT_var _) hpl.1 hpl' h3
@@ -894,7 +907,7 @@ theorem binopWith_sound {env : Env} {cx : Cx} {g : MGamma} {l r : Expr} {op : Bi
     obtain ⟨r0, s3, a5, a6⟩ := bind_ok.mp a4
     obtain ⟨rfl, hres⟩ := resolveM_ok a5
     obtain ⟨rfl, hE1⟩ := freshVar_ok a1
-    have hpl := hl _ s1 dl s2 (hE1.1 hW) (WT_var _) a3
+    have hpl := hl _ s1 dl s2 (hE1.1 hW) hE1.2 (WT_var _) a3
     have hpl' : PostE env (cx.withTy (.var st.store.length)) g l st dl s2 :=
       ⟨hpl.1, fun σ hσ hs => ⟨hE1.2 σ (hpl.2 σ hσ hs).1, (hpl.2 σ hσ hs).2⟩⟩
     have hWr0 : WT r0 = true := resolve_WT hpl.1 (WT_var _) hres
@@ -959,7 +972,7 @@ theorem binopWith_sound {env : Env} {cx : Cx} {g : MGamma} {l r : Expr} {op : Bi
     obtain ⟨r0, s3, a5, a6⟩ := bind_ok.mp a4
     obtain ⟨rfl, hres⟩ := resolveM_ok a5
     obtain ⟨rfl, hE1⟩ := freshVar_ok a1
-    have hpl := hl _ s1 dl s2 (hE1.1 hW) (WT_var _) a3
+    have hpl := hl _ s1 dl s2 (hE1.1 hW) hE1.2 (WT_var _) a3
     by_cases hn : isIntR env r0 = true
     · simp only [hn, if_true] at a6
       obtain ⟨dr, s4, b1, b2⟩ := bind_ok.mp a6
@@ -1674,6 +1687,112 @@ theorem assign_sound {env : Env} (henv : EnvPlain env) {isConst : Bool} {x : Nat
       obtain ⟨hcm, _⟩ := inst_compat_meet _ te tp a2' b2
       refine ⟨.unit, dd, ?_, by rw [heq1 σ hs1]; rfl, a3⟩
       simp only [synth, c1, b1, a1', expect_ok' hcm, bind, Except.bind, pure, Except.pure, Bool.false_eq_true, if_false]
+
+/-! ### compound assignment: `binop` with the assigned path as left operand -/
+
+/-- the assigned path read as an expression: `x.f1.f2…` -/
+def pathExpr (x : Nat) (path : List Nat) : Expr := path.foldl (fun acc f => Expr.field acc f) (.var x)
+
+theorem synth_fields (env : Env) (c : Ctx) (gd : Gamma) : ∀ (path : List Nat) (b : Expr) (t tp : Ty) (d : Bool),
+    synth env c gd b = .ok (t, d) → pathTy env t path = some tp →
+    synth env c gd (path.foldl (fun acc f => Expr.field acc f) b) = .ok (tp, d)
+  | [], b, t, tp, d, hb, hp => by
+    simp only [pathTy, Option.some.injEq] at hp
+    subst hp
+    exact hb
+  | f :: rest, b, t, tp, d, hb, hp => by
+    simp only [pathTy] at hp
+    cases hf : fieldTy env t f with
+    | none => simp [hf] at hp
+    | some t' =>
+      simp only [hf] at hp
+      refine synth_fields env c gd rest (.field b f) t' tp d ?_ hp
+      simp only [synth, hb, hf, bind, Except.bind, pure, Except.pure]
+
+/-- compound assignment to a local variable or to fields of it (`x.p op= e`,
+    `op` not `/`): the model calls `binop` with the assigned path as left operand,
+    the declarative rule asks for `binopTy op (type of x.p) (type of e)` and that
+    the result can be assigned back -/
+theorem cassign_sound {env : Env} (henv : EnvPlain env) {op : BinOp} {isConst : Bool} {x : Nat} {path : List Nat} {e : Expr}
+    (hop : op ≠ .div) (ih : IH env e)
+    {cx : Cx} {g : MGamma} {st : St} {d : Bool} {st' : St} (hW : WTs st.store) (hcx : WTcx cx) (hg : WTg g)
+    (h : infer env cx g (.cassign op isConst x path e) st = .ok d st') :
+    PostE env cx g (.cassign op isConst x path e) st d st' := by
+  simp only [infer] at h
+  obtain ⟨u, s1, h1, h2⟩ := bind_ok.mp h
+  obtain ⟨p, s2, h3, h4⟩ := bind_ok.mp h2
+  obtain ⟨hW1, hE1, heq1⟩ := unifyM_ok h1 hW hcx.1 WT_unit
+  cases isConst with
+  | true =>
+    unfold rootTy at h3
+    simp only [if_true] at h3
+    cases hl : env.consts.lookup x with
+    | none => simp only [hl] at h3; exact (throw_ok.mp h3).elim
+    | some t =>
+      simp only [hl] at h3
+      obtain ⟨rfl, rfl⟩ := pure_ok.mp h3
+      simp only at h4
+      obtain ⟨ft, s3, h5, h6⟩ := bind_ok.mp h4
+      simp only [Bool.not_false, if_true] at h6
+      exact (throw_ok.mp h6).elim
+  | false =>
+    unfold rootTy at h3
+    simp only [Bool.false_eq_true, if_false] at h3
+    cases hl : lookupM g x with
+    | none => simp only [hl] at h3; exact (throw_ok.mp h3).elim
+    | some t =>
+      simp only [hl] at h3
+      obtain ⟨rfl, rfl⟩ := pure_ok.mp h3
+      simp only at h4
+      obtain ⟨ft, s3, h5, h6⟩ := bind_ok.mp h4
+      simp only [Bool.not_true, Bool.false_eq_true, if_false] at h6
+      obtain ⟨rfl, hWft, hpf⟩ := accessPath_sound henv path h5 hW1 (lookupM_WT hg hl)
+      -- the left operand: the path, in every state that extends the one its type was computed in
+      have hleft : OperandOkFrom s1.store env (cx.withTy ft) g (pathExpr x path) (pathAsExpr env ft) := by
+        intro τ s0 d0 s0' hW0 hext hτ hchk
+        unfold pathAsExpr at hchk
+        obtain ⟨u0, sa, b1, b2⟩ := bind_ok.mp hchk
+        obtain ⟨rfl, rfl⟩ := pure_ok.mp b2
+        obtain ⟨hWa, hEa, heqa⟩ := unifyM_ok b1 hW0 hτ hWft
+        refine ⟨hWa, fun σ hσ hs => ⟨hEa.2 σ hs, fun gd hgd => ?_⟩⟩
+        have hs1 : Sat σ s1.store := hext σ (hEa.2 σ hs)
+        obtain ⟨tf, c1, c2, _⟩ := gamma_lookup hgd x (den σ t) (by rw [lookup_denG, hl]; rfl)
+        obtain ⟨tp, q1, q2⟩ := hpf σ hs1 tf c2
+        refine ⟨tp, false, ?_, ?_, fun hf => by cases hf⟩
+        · exact synth_fields env _ gd path (.var x) tf tp false (by simp only [synth, c1, pure, Except.pure]) q1
+        · show inst tp (den σ τ) = true
+          rw [heqa σ hs]; exact q2
+      have hright : OperandOk env (cx.withTy ft) g e (fun t => infer env (cx.withTy t) g e) :=
+        fun τ s0 d0 s0' hW0 hτ hh => ih (cx.withTy τ) g s0 d0 s0' hW0 (WTcx_with hcx hτ) hg hh
+      obtain ⟨hW3, hp3⟩ := binopWith_sound (cx := cx.withTy ft) hop hleft hright hW1 (WTcx_with hcx hWft) h6
+      refine ⟨hW3, fun σ hσ hs => ?_⟩
+      obtain ⟨hs1, hsyn⟩ := hp3 σ hσ hs
+      refine ⟨hE1.2 σ hs1, fun gd hgd => ?_⟩
+      obtain ⟨tb, ddb, a1, a2, a3⟩ := hsyn gd hgd
+      have a2' : inst tb (den σ ft) = true := a2
+      -- what the declarative checker did on `x.p op e`
+      obtain ⟨tf, c1, c2, _⟩ := gamma_lookup hgd x (den σ t) (by rw [lookup_denG, hl]; rfl)
+      obtain ⟨tp, q1, q2⟩ := hpf σ hs1 tf c2
+      have hpe : synth env (denCx σ cx) gd (pathExpr x path) = .ok (tp, false) :=
+        synth_fields env _ gd path (.var x) tf tp false (by simp only [synth, c1, pure, Except.pure]) q1
+      have a1' : synth env (denCx σ cx) gd (.bin op (pathExpr x path) e) = .ok (tb, ddb) := a1
+      simp only [synth, hpe, bind, Except.bind] at a1'
+      cases hse : synth env (denCx σ cx) gd e with
+      | error msg => simp [hse] at a1'
+      | ok pr =>
+        obtain ⟨te, dde⟩ := pr
+        simp only [hse] at a1'
+        cases hb : binopTy op tp te with
+        | none => simp [hb, fail] at a1'
+        | some tr =>
+          simp only [hb, pure, Except.pure, Except.ok.injEq, Prod.mk.injEq] at a1'
+          obtain ⟨rfl, rfl⟩ := a1'
+          obtain ⟨hcm, _⟩ := inst_compat_meet _ tr tp a2' q2
+          refine ⟨.unit, dde, ?_, by rw [heq1 σ hs1]; rfl, ?_⟩
+          · simp only [synth, c1, q1, hse, hb, expect_ok' hcm, bind, Except.bind, pure, Except.pure, Bool.false_eq_true, if_false]
+          · intro hd
+            have := a3 hd
+            cases op <;> simp_all [binDiv]
 
 end RotoV.TcInfer
 
